@@ -23,6 +23,29 @@ fn modulus(r: &mut Rng, n: usize, which: usize) -> Vec<u64> {
     m
 }
 
+/// moduli for the accumulation windows of lincomb: every class, plus 2^(BITS-lz) - 1 - 2d (just below a power of two)
+fn lincomb_modulus(r: &mut Rng, n: usize, it: usize) -> Vec<u64> {
+    if it % 4 == 1 {
+        let lz = r.pick(&[0usize, 0, 1, 2, 3, 7, 31, 32, 62, 63]);
+        let d = r.pick(&[0u64, 0, 1, 2, 5, 1000]);
+        let top = vsub(&vpow2(64 * n - lz), &[1]);
+        let mut m = if vcmp(&top, &[2 * d + 3]).is_gt() { fit(trim(vsub(&top, &[2 * d])), n) } else { fit(trim(top), n) };
+        m[0] |= 1;
+        return m;
+    }
+    modulus(r, n, it / 2)
+}
+/// a Montgomery representative below m, biased to the top of the range
+fn rep_val(r: &mut Rng, m: &[u64], which: usize) -> Vec<u64> {
+    let n = m.len();
+    match which % 5 {
+        0 | 1 => fit(vsub(m, &[1]), n),
+        2 => if vcmp(m, &[2]).is_gt() { fit(vsub(m, &[2]), n) } else { vec![0; n] },
+        3 => fit(vshr(m, 1), n),
+        _ => below(r, m),
+    }
+}
+
 fn base_val(r: &mut Rng, m: &[u64], which: usize) -> Vec<u64> {
     let n = m.len();
     match which % 7 {
@@ -172,13 +195,19 @@ fn mexp_dyn<const N: usize, const E: usize>(cx: &mut Cx, iters: usize) {
 
 fn lincomb_dyn<const N: usize>(cx: &mut Cx, iters: usize) {
     for it in 0..iters {
-        let m = modulus(&mut cx.rng, N, if it % 2 == 0 { 7 } else { it });
+        let m = lincomb_modulus(&mut cx.rng, N, it);
         let params = MontyParams::<N>::new_vartime(odd::<N>(&m).unwrap());
         let terms = 1 + (it * 3) % 40;
-        let xs: Vec<Vec<u64>> = (0..terms).map(|j| base_val(&mut cx.rng, &m, it + j)).collect();
-        let ys: Vec<Vec<u64>> = (0..terms).map(|j| base_val(&mut cx.rng, &m, it + 2 * j + 1)).collect();
-        let fx: Vec<MontyForm<N>> = xs.iter().map(|a| MontyForm::new(&u::<N>(a), params)).collect();
-        let fy: Vec<MontyForm<N>> = ys.iter().map(|a| MontyForm::new(&u::<N>(a), params)).collect();
+        let (fx, fy): (Vec<MontyForm<N>>, Vec<MontyForm<N>>) = if it % 3 == 0 {
+            // representatives chosen directly (near m-1: maximal accumulator carries), values read back
+            ((0..terms).map(|j| MontyForm::from_montgomery(u::<N>(&rep_val(&mut cx.rng, &m, it + j)), params)).collect(),
+             (0..terms).map(|j| MontyForm::from_montgomery(u::<N>(&rep_val(&mut cx.rng, &m, it + 2 * j)), params)).collect())
+        } else {
+            ((0..terms).map(|j| MontyForm::new(&u::<N>(&base_val(&mut cx.rng, &m, it + j)), params)).collect(),
+             (0..terms).map(|j| MontyForm::new(&u::<N>(&base_val(&mut cx.rng, &m, it + 2 * j + 1)), params)).collect())
+        };
+        let xs: Vec<Vec<u64>> = fx.iter().map(|f| w(&f.retrieve())).collect();
+        let ys: Vec<Vec<u64>> = fy.iter().map(|f| w(&f.retrieve())).collect();
         let pairs: Vec<(&MontyForm<N>, &MontyForm<N>)> = fx.iter().zip(fy.iter()).collect();
         let ev = |form: &str| Ev::new("lincomb", form).i("bits", 64 * N as i64).n("m", &m).nl("xs", &xs).nl("ys", &ys);
         cx.call(ev("MontyForm.lincomb_vartime"), || { let r = MontyForm::<N>::lincomb_vartime(&pairs); O::ok().n("rt", &w(&r.retrieve())).n("mf", &w(r.as_montgomery())) });
@@ -189,13 +218,18 @@ fn lincomb_dyn<const N: usize>(cx: &mut Cx, iters: usize) {
 fn lincomb_boxed(cx: &mut Cx, iters: usize) {
     for it in 0..iters {
         let n = cx.rng.range(1, 9);
-        let m = modulus(&mut cx.rng, n, if it % 2 == 0 { 7 } else { it });
+        let m = lincomb_modulus(&mut cx.rng, n, it);
         let params = BoxedMontyParams::new_vartime(oddb(&m).unwrap());
         let terms = 1 + (it * 3) % 40;
-        let xs: Vec<Vec<u64>> = (0..terms).map(|j| base_val(&mut cx.rng, &m, it + j)).collect();
-        let ys: Vec<Vec<u64>> = (0..terms).map(|j| base_val(&mut cx.rng, &m, it + 2 * j + 1)).collect();
-        let fx: Vec<BoxedMontyForm> = xs.iter().map(|a| BoxedMontyForm::new(bx(a), params.clone())).collect();
-        let fy: Vec<BoxedMontyForm> = ys.iter().map(|a| BoxedMontyForm::new(bx(a), params.clone())).collect();
+        let (fx, fy): (Vec<BoxedMontyForm>, Vec<BoxedMontyForm>) = if it % 3 == 0 {
+            ((0..terms).map(|j| BoxedMontyForm::from_montgomery(bx(&rep_val(&mut cx.rng, &m, it + j)), params.clone())).collect(),
+             (0..terms).map(|j| BoxedMontyForm::from_montgomery(bx(&rep_val(&mut cx.rng, &m, it + 2 * j)), params.clone())).collect())
+        } else {
+            ((0..terms).map(|j| BoxedMontyForm::new(bx(&base_val(&mut cx.rng, &m, it + j)), params.clone())).collect(),
+             (0..terms).map(|j| BoxedMontyForm::new(bx(&base_val(&mut cx.rng, &m, it + 2 * j + 1)), params.clone())).collect())
+        };
+        let xs: Vec<Vec<u64>> = fx.iter().map(|f| wb(&f.retrieve())).collect();
+        let ys: Vec<Vec<u64>> = fy.iter().map(|f| wb(&f.retrieve())).collect();
         let pairs: Vec<(&BoxedMontyForm, &BoxedMontyForm)> = fx.iter().zip(fy.iter()).collect();
         let ev = |form: &str| Ev::new("lincomb", form).i("bits", 64 * n as i64).n("m", &m).nl("xs", &xs).nl("ys", &ys);
         cx.call(ev("BoxedMontyForm.lincomb_vartime"), || { let r = BoxedMontyForm::lincomb_vartime(&pairs); O::ok().n("rt", &wb(&r.retrieve())).n("mf", &wb(r.as_montgomery())) });
